@@ -1,7 +1,7 @@
 (* C09 — The control-flow graph matches x86 control flow. *)
 From Avo Require Import Base.Prelude.
 From stdpp Require Import gmap.
-From Avo Require Import Base.MaskSet Model.IR Model.CFG Proofs.CFGProofs.
+From Avo Require Import Base.MaskSet Model.IR Model.CFG Model.NodeSem Proofs.CFGProofs Proofs.CleanupSem Proofs.CFGSem.
 Open Scope string_scope.
 Open Scope N_scope.
 Open Scope list_scope.
@@ -48,6 +48,27 @@ Theorem cfg_model_meets_spec : forall ns, forallb opcode_flags_ok (instructions 
 Proof. exact cfg_model_meets_spec_lemma. Qed.
 Print Assumptions cfg_model_meets_spec.
 
+(* WHAT THE GRAPH IS FOR.  Take the small-step semantics of a body (Model/NodeSem.v), for any machine
+   state and any instruction semantics `exec` that respects the flags: control is transferred only
+   to the label a branch names, and only a non-terminal instruction that is not an unconditional
+   branch falls through.  Then whenever the CFG passes succeed, every step the machine makes from
+   instruction number a leads to an instruction number b (skipping labels and comments) such that b
+   is in the successor list the pass computed for a; or the machine has run past the last
+   instruction and that list contains the nil successor.  Liveness (C02) and the allocator (C01)
+   rely on exactly this: no execution leaves the graph. *)
+Theorem executed_edge_in_cfg : forall (S : Type) (exec : instr -> S -> S * ctl),
+  (forall i s s' l, exec i s = (s', CGoto l) -> is_branch i = true /\ target_label i = Some l) ->
+  (forall i s s', exec i s = (s', CNext) -> is_terminal i = false /\ is_unconditional_branch i = false) ->
+  forall P succs preds, forallb opcode_flags_ok (instructions P) = true -> cfg_model P = CfgOK succs preds ->
+  forall i r s k' s', is_suffix (NInstr i :: r) P -> step S exec P (NInstr i :: r) s = Running k' s' ->
+  exists sl, List.nth_error succs (index_at P (NInstr i :: r)) = Some sl /\
+             (In (Some (index_at P k')) sl \/ (index_at P k' = ninstr P /\ In None sl)).
+Proof.
+  intros S exec Hg Hn P succs preds Hf Hm. apply (executed_edge_in_cfg_lemma S exec Hg Hn P succs preds).
+  rewrite <- Hm. now apply cfg_model_meets_spec_lemma.
+Qed.
+Print Assumptions executed_edge_in_cfg.
+
 (* labels are bound to the first instruction after them; LabelTarget fails exactly on duplicates
    and labels without a following instruction *)
 Theorem label_target_exact : forall ns,
@@ -77,3 +98,41 @@ Example cfg_example :
   /\ cfg_spec_b ns (cfg_model ns) = true.
 Proof. split; reflexivity. Qed.
 Print Assumptions cfg_example.
+
+(* non-vacuity of executed_edge_in_cfg: a machine whose state is one flag; the loop above, entered
+   with the flag set, takes the back edge JNE -> NOP, which is successor 1 of instruction 2 *)
+Module Example09.
+Definition exec (i : instr) (s : bool) : bool * ctl :=
+  if is_terminal i then (s, CHalt) else
+  match target_label i with
+  | Some l => if is_conditional i then (if s then (false, CGoto l) else (s, CNext)) else (s, CGoto l)
+  | None => if is_unconditional_branch i then (s, CHalt) else (s, CNext)
+  end.
+Lemma exec_goto : forall i s s' l, exec i s = (s', CGoto l) -> is_branch i = true /\ target_label i = Some l.
+Proof.
+  intros i s s' l. unfold exec. destruct (is_terminal i); [discriminate|]. destruct (target_label i) as [t|] eqn:Et.
+  - assert (Hb : is_branch i = true) by (unfold target_label in Et; destruct (is_branch i); [reflexivity|discriminate]).
+    destruct (is_conditional i); [destruct s|]; intro H; inversion H; subst; auto.
+  - destruct (is_unconditional_branch i); discriminate.
+Qed.
+Lemma exec_next : forall i s s', exec i s = (s', CNext) -> is_terminal i = false /\ is_unconditional_branch i = false.
+Proof.
+  intros i s s'. unfold exec. destruct (is_terminal i); [discriminate|]. destruct (target_label i) as [t|] eqn:Et.
+  - unfold is_unconditional_branch. destruct (is_conditional i) eqn:Ec; [|discriminate]. intros _. split; [reflexivity|]. now rewrite andb_false_r.
+  - destruct (is_unconditional_branch i) eqn:E; [discriminate|]. auto.
+Qed.
+Definition mk op ops br cond term := NInstr {| opcode := op; suffixes := []; operands := ops; inputs := []; outputs := [];
+                                        is_terminal := term; is_branch := br; is_conditional := cond; cancelling := false; isa := [] |}.
+Definition P := [mk "JMP" [OLabel "b"] true false false; NLabel "a"; NLabel "b"; mk "NOP" [] false false false; mk "JNE" [OLabel "a"] true true false].
+Example back_edge :
+  exists i k', is_suffix [NInstr i] P /\ step bool exec P [NInstr i] true = Running k' false /\
+               index_at P [NInstr i] = 2%nat /\ index_at P k' = 1%nat /\
+               exists sl, List.nth_error [[Some 1%nat]; [Some 2%nat]; [Some 1%nat; None]] 2 = Some sl /\ In (Some 1%nat) sl.
+Proof.
+  eexists. eexists. split; [exists [mk "JMP" [OLabel "b"] true false false; NLabel "a"; NLabel "b"; mk "NOP" [] false false false]; reflexivity|].
+  split; [reflexivity|]. split; [reflexivity|]. split; [reflexivity|]. eexists. split; [reflexivity|]. now left.
+Qed.
+End Example09.
+Print Assumptions Example09.exec_goto.
+Print Assumptions Example09.exec_next.
+Print Assumptions Example09.back_edge.
